@@ -55,4 +55,10 @@ CHECKS["C08"] = {
   "note": "exact reals (first-index argmax is deterministic, so equality must be exact on every path, ties included); CUR family scores are uninterpreted functions with congruence; one repaired defect (recompute_every=0 warm start)",
   "technique": TECH,
 }
+CHECKS["C09"] = {
+  "text": "Every path of the public entry points within reach (all selectors incl. VoronoiFPS, StandardFlexibleScaler, KernelNormalizer, SparseKernelCenterer, QuickShift, SparseKDE constructor, pairwise distances, orthogonalizers with copy=True, prediction rigidities) is executed on symbolic object arrays, which make aliasing observable exactly as in numpy: after each call every caller-supplied array must hold the identical terms, get_params() must be unchanged by fit, fit returns self, fit_transform equals fit+transform, and two-step histories (other data, with-y then without-y, larger then smaller, repeated call) must leave the attribute set and values of a fresh estimator.",
+  "design_ref": "DESIGN.md 2/C09",
+  "note": "validators stubbed with sklearn's aliasing contract for float64 C-order writeable input (worst case); PCovR/KernelPCovR/Ridge2FoldCV/OrthogonalRegression/DirectionalConvexHull/reconstruction measures and SparseKDE.fit are outside this check; three defects repaired, one recorded (VoronoiFPS calibrated full_fraction, pinned by a test)",
+  "technique": TECH,
+}
 NOT_APPLICABLE = {}
